@@ -61,6 +61,11 @@ func IsFlagSet(f *asn1.BitString, i int) bool {
 	b := i / 8
 	//Which bit in byte
 	p := uint(7 - (i - 8*b))
+	if b >= len((*f).Bytes) {
+		// A bit string shorter than the flag asked for: the flag is not set (RFC 4120 5.2.8 allows a peer to
+		// send fewer than 32 bits only by mistake, but a mistake must not be a panic).
+		return false
+	}
 	if (*f).Bytes[b]&(1<<p) != 0 {
 		return true
 	}
